@@ -31,7 +31,7 @@ CFG = dict(
                  "the ASan build runs the quick-tier bounds in both tiers (all pairs only for <=8-bit models)"],
     tus=[tu("c07_native", "harness/c07_channel_multiply_invert.cpp", "native"),
          tu("c07_asan", "harness/c07_channel_multiply_invert.cpp", "asan", extra=FCO)],
-    runs=[run("c07_native", shards=16, min_cases={"quick": 280, "thorough": 720}),
-          run("c07_asan", shards=16, min_cases={"quick": 280, "thorough": 280}, secondary=True)],
+    runs=[run("c07_native", shards=16, min_cases={"quick": 294, "thorough": 728}),
+          run("c07_asan", shards=16, min_cases={"quick": 294, "thorough": 294}, secondary=True)],
     require_obs=["mul.all-pairs.u8", "mul.all-pairs.s8", "mul.all-pairs.p8", "mul.grid.f32", "inv.s16", "inv.f32", "ref.pdyn<u16,6>@7"],
 )
